@@ -8,10 +8,31 @@ BASELINE_OFF = ("cd /repo && GOFLAGS=-mod=mod go test -json -vet=off -count=1 -t
 
 HOOK_COMMITS = [
     "7c06555",  # container/verif_hooks.go: ring buffer raw accessor
+    "6d9c0df",  # container/iterable/verif_hooks.go, container/lru/verif_hooks.go: list statistics accessors
 ]
 
 # id -> dict(text, note, technique, design_ref)
 CHECKS = {
+    "C10": dict(
+        text="TLC exhausts IterMapImpl - the linked list with sentinel, per-node state, prev/next, iterator reference counts, head, "
+             "key index and node pool of map.go, transcribed statement by statement - for 2 keys / 2 iterators / 3 insertions "
+             "(thorough: up to 3 keys / 2 iterators / 4 insertions and 2 keys / 3 iterators / 4 insertions), proves that it refines "
+             "the cursor contract OrderedMap.tla (same reply to every call) and keeps eight structural invariants; one test per edge "
+             "of that graph is replayed on the real iterable.Map with panics recovered; recorded random histories (6 keys, 8 "
+             "iterators, re-added keys, 300-400 calls) are validated by TLC against the contract. Bounded, not a proof.",
+        note="Trusted: TLC, the OrderedMap.tla contract (cursor = oldest live entry not yet passed), JSON emission/parsing.",
+        technique="TLA+ contract + implementation-shaped spec, TLC refinement check, per-edge behaviour replay, TLC trace validation",
+        design_ref="DESIGN.md section 4, C10"),
+    "C11": dict(
+        text="The retention bound (linked nodes <= Len + 1 sentinel + open iterators; no iterator open => no removed entry linked, all "
+             "reference counts zero) is an invariant TLC checks on every state of IterMapImpl; on the real map it is read through a "
+             "verif-tagged accessor after every step of every edge-behaviour and of recorded random histories (validated by "
+             "OrderedMapTrace.tla); for LRU caches (Cache and ECache, capacities 1..64) list statistics sampled over 20k (thorough "
+             "200k) mixed GetOrCreate/Remove/Clear calls are validated by RetentionTrace.tla. Cost growth is judged by the exact node "
+             "count, not by timing.",
+        note="Trusted: TLC, the accessors iterable.VerifListStats / lru.VerifListStats (they walk the real list from the real head).",
+        technique="TLC invariant on the implementation-shaped spec + per-edge replay with structural accessor + TLC trace validation of sampled statistics",
+        design_ref="DESIGN.md section 4, C11"),
     "C14": dict(
         text="TLC exhausts the implementation-shaped model RingImpl (slice of Cap+1 slots, r, w, the two-segment loops) for "
              "capacities 0..3 (thorough 0..5), proves it refines the FIFO contract RingBuffer.tla and keeps consumed slots zero; "
